@@ -183,6 +183,10 @@ func NewPESHeader(pesBytes []byte) (PESHeader, error) {
 			pes.dataAlignment = pesBytes[6]&0x04 != 0
 		}
 		dataStartIndex := 6
+		if pes.optionalFieldsExist() {
+			// until PES_header_data_length has been seen nothing is known to be data
+			dataStartIndex = len(pesBytes)
+		}
 
 		if pes.optionalFieldsExist() && CheckLength(pesBytes, "Optional Fields", 9) {
 
